@@ -52,7 +52,18 @@ def _schema_terms(rng, docs, tier):
                 cp = G.concrete_path_for(rng, doc, maxlen=2, miss_p=0.1)
             else:
                 cp = PC.mkpath([{"p": "prim", "v": k} for k in cpath])
-            cond = PC.L("value", rng.choice(["equal_to", "equal_to", "not_equal_to"]), {"$path": cp})
+            P = {"$path": cp}
+            form = rng.choice(["top", "top", "list-item", "list-items", "mapping-value", "kwarg"])
+            if form == "top":
+                cond = PC.L("value", rng.choice(["equal_to", "equal_to", "not_equal_to"]), P)
+            elif form == "list-item":
+                cond = PC.L("value", rng.choice(["in_", "not_in"]), [P, rng.choice([0, "x", None])])
+            elif form == "list-items":
+                cond = PC.L("value", "in_", [P, {"$path": G.concrete_path_for(rng, doc, maxlen=2, miss_p=0.2)}])
+            elif form == "mapping-value":
+                cond = PC.L("value", rng.choice(["equal_to", "not_equal_to"]), {"k": P, "j": 1})
+            else:
+                cond = {"c": "leaf", "kind": "value", "pre": None, "fn": "items_contain", "args": [], "kwargs": {"a": P}}
         else:
             cond = G.tree(rng, rng.choice([0, 1, 2]), ["value"], null_p=0.05, well_typed=True, pool=nodes or None)
         rules.append({"path": p, "cond": cond,
